@@ -15,7 +15,8 @@ RULE = ("random shots (winds, inclined, canted, all tables) x request families: 
         "request, variant); non-trivial when the variant differs from the base in at least one request parameter and "
         "at least 2 rows are shared")
 MUST_OBSERVE = ["request_pairs", "row_pairs_compared", "variant_extra", "variant_longer", "variant_coarser", "variant_finer",
-                "variant_time_step", "subset_checks", "same_calculator_requests", "fresh_calculator_requests", "extra_only_rows_checked", "rangeerror_results", "variant_other_step", "variant_sub_step", "variant_extra_time_step"]
+                "variant_time_step", "subset_checks", "same_calculator_requests", "fresh_calculator_requests", "extra_only_rows_checked", "rangeerror_results", "variant_other_step", "variant_sub_step", "variant_extra_time_step",
+                "events_at_fine_steps_cases", "event_rows_beside_fine_steps"]
 ASSUMPTIONS = ["rows are matched by distance to 1e-9 relative among rows carrying the RANGE flag; the terminal row of an "
                "incomplete trajectory and the flag-less 'second point' row are not range-card rows and are not compared"]
 REL = 1e-9
@@ -91,6 +92,8 @@ def check_case(ctx, case):
             except (pb.ZeroFindingError, pb.RangeError):
                 pass
     zero_raw = shot.weapon.zero_elevation.raw_value
+    if case.get("events_at_fine_steps"):
+        ctx.count("events_at_fine_steps_cases")
     rows_a, raised_a = fire(calc, shot, base)
     if raised_a:
         ctx.count("rangeerror_results")
@@ -157,6 +160,8 @@ def check_case(ctx, case):
                 if j in matched_b:
                     continue
                 ctx.count("extra_only_rows_checked")
+                if case.get("events_at_fine_steps") and b.flag & EVENT_BITS:
+                    ctx.count("event_rows_beside_fine_steps")
                 xb = b.distance >> Distance.Foot
                 if not b.flag & EVENT_BITS and not (j == len(rows_b) - 1 and not b.flag & TrajFlag.RANGE):
                     if xb > lim * (1 + 1e-9) or (raised_a and rows_a and xb > (rows_a[-1].distance >> Distance.Foot)):
@@ -167,7 +172,35 @@ def check_case(ctx, case):
     monitors.reset_all()
 
 
+def gen_event_case(rng):
+    """Recording steps of the order of the integration step around the events: a launch just above Mach 1 with a low BC goes
+    subsonic within the first few hundred feet and a sight above the bore with a small hold crosses the sight line twice, so
+    the event rows of the extra-data request fall into the same integration steps as requested distances."""
+    s = gen.shot(rng, custom=0.0, look=rng.random() < 0.3, cant=False, wind_n=rng.choice([0, 1]), wind_max=20.0, range_ft=300.0)
+    s["atmo"] = {"kind": "icao", "alt_ft": rng.choice([0.0, 3000.0])}
+    s["mv_fps"] = round(rng.uniform(1125.0, 1230.0), 1)
+    s["bc"] = round(rng.uniform(0.06, 0.25), 4)
+    s["sight_height_in"] = rng.choice([1.5, 2.5, 0.0])
+    s["zero_deg"], s["rel_deg"] = round(rng.uniform(0.1, 0.5), 3), 0.0
+    s["look_deg"] = max(-20.0, min(20.0, s["look_deg"]))
+    r = rng.choice([90.0, 150.0, 240.0])
+    step = rng.choice([0.25, 0.3, 0.5, 0.5, 0.75, 1.0, 1.5])
+    base = {"range_ft": r, "step_ft": step, "extra": False, "time_step": 0.0}
+    ts = rng.choice([0.0005, 0.002, 0.01])
+    variants = [
+        {"kind": "extra", "request": dict(base, extra=True), "expect_superset": True},
+        {"kind": "extra", "request": dict(base, extra=True, range_ft=r + 7 * step), "expect_superset": True},
+        {"kind": "extra_time_step", "base_request": dict(base, time_step=ts), "request": dict(base, time_step=ts, extra=True), "expect_superset": True},
+        {"kind": "coarser", "request": dict(base, step_ft=step * 3, extra=True), "expect_superset": False},
+    ]
+    for v in variants:
+        v["same_calculator"] = rng.random() < 0.8
+    return {"shot": s, "base": base, "variants": variants, "zero_first_ft": None, "events_at_fine_steps": True}
+
+
 def gen_case(rng):
+    if rng.random() < 0.25:
+        return gen_event_case(rng)
     s = gen.shot(rng, custom=0.1, wind_max=60.0)
     reach = rng.random() < 0.2
     r = rng.choice([300.0, 600.0, 1000.0, 1500.0, 2400.0])
